@@ -49,12 +49,15 @@ mutation Update($d: UserInput!, $o: Options) { update(data: $d, opts: $o) { id }
 '''
 
 SCHEMA_B = '''
+schema { query: Query }
+type Mut { ping(n: Int = 3): Int }
+extend schema { mutation: Mut }
 type Query { things(where: Where = {a: 1}): [Thing] }
 type Thing { a: Int  b: [Int!]!  c: Color }
 enum Color { RED GREEN }
 input Where { a: Int! = 0  color: Color! = GREEN  ids: [ID!]! = ["1", "2"]  deep: [[Int]] = [[1, null], []]  note: String = null  req: String! }
 '''
-QUERIES_B = 'query Things($w: Where) { things(where: $w) { a b c } }'
+QUERIES_B = 'query Things($w: Where) { things(where: $w) { a b c } } mutation Ping($n: Int) { ping(n: $n) }'
 
 CORPUS = [("A", SCHEMA_A, QUERIES_A), ("B", SCHEMA_B, QUERIES_B)]
 
@@ -87,7 +90,8 @@ def _write_tree(root, defs, layout):
         p = os.path.join(d, rel)
         os.makedirs(os.path.dirname(p), exist_ok=True)
         with open(p, "w") as f:
-            f.write("\n\n".join(defs[i] for i in ids) + "\n")
+            # no newline at the end of the file, and the last line is a comment: the files must be joined with a separator
+            f.write("\n\n".join(defs[i] for i in ids) + "\n# end of " + rel)
     # files that must be ignored
     with open(os.path.join(d, "README.txt"), "w") as f:
         f.write("not graphql {")
@@ -208,7 +212,11 @@ def compare_sources(name, sdl, queries, tier):
             p = os.path.join(root, "schema.graphql")
             open(p, "w").write(sdl)
             return dict(schema_path=p)
-        base_root, base = _generate(from_file, queries)
+        try:
+            base_root, base = _generate(from_file, queries)
+        except Exception as e:      # noqa: the schema of the corpus is valid; a failure here is a failure of the file source
+            return 1, [dict(inputs=dict(scenario=f"{name}/single-file"), cases=["generation-fails"], failed=["single-file-source-generates"],
+                            outcome=f"{type(e).__name__}: {str(e)[:300]}")]
         roots.append(base_root)
         base_inputs = _input_models(base_root)
         defs = _definitions(sdl)
@@ -230,13 +238,13 @@ def compare_sources(name, sdl, queries, tier):
             try:
                 fake = _fake_post(sdl, descriptions)
                 verify = not descriptions          # both values of the TLS flag are exercised
-                with mock.patch.dict(os.environ, {"PYVC_SCHEMA_TOKEN_v2": "secret-token"}):
+                with mock.patch.dict(os.environ, {"PYVC_SCHEMA_TOKEN_v2": "$2y$10$secret-token", "secret": "WRONG"}):
                     r, files = _generate(lambda root: dict(remote_schema_url="http://schema.example/graphql",
                                                            remote_schema_headers={"Authorization": "$PYVC_SCHEMA_TOKEN_v2", "X-Plain": "plain"},
                                                            remote_schema_verify_ssl=verify), queries, patch_post=fake)
                 roots.append(r)
                 bad = []
-                want = dict(url="http://schema.example/graphql", headers={"Authorization": "secret-token", "X-Plain": "plain"}, verify=verify)
+                want = dict(url="http://schema.example/graphql", headers={"Authorization": "$2y$10$secret-token", "X-Plain": "plain"}, verify=verify)
                 if len(fake.seen) != 1 or {k: fake.seen[0][k] for k in want} != want:
                     bad.append("configured-url-headers-and-tls-flag-are-what-is-sent")
                 for f in sorted(set(files) | set(base)):
